@@ -25,6 +25,7 @@ MUST_REACH = ["add_as_source", "AssemblyManager._annotate_assembly"]
 NEEDS_REGISTRIES = True
 BUDGET_S = {"quick": 900, "thorough": 7200}
 IDCH = "ABCDEFGHIJKLMNOPQRSTUVWXYZabcdefghijklmnopqrstuvwxyz0123456789_"
+IDWORDS = ["pTU", "linker", "promoter", "leader", "signal", "reporter", "degron", "stop", "term", "pDest", "RFP", "GFP", "ori", "bla"]
 
 
 def setup(tier):
@@ -34,6 +35,8 @@ def setup(tier):
 def cases(tier, seed):
     per = 24 if tier == "quick" else 4000
     out = _embedded.assembly_cases(seed, per * len(gen.enzyme_names()), features=True, max_chain=4)
+    # long module lists (the "Modules:" comment line of 7..10 supplied plasmids)
+    out += _embedded.assembly_cases(seed + 7919, 40 if tier == "quick" else 2000, enzymes=["BsaI", "BsmBI", "BbsI", "FokI"], features=False, max_chain=10, tmax=12, bmax=10, pmax=8)
     out += _embedded.registry_assembly_cases(seed, per_vector=1 if tier == "quick" else 30)
     out += [{"kind": "two-level", "i": i, "seed": seed} for i in range(60 if tier == "quick" else 10000)]
     return out
@@ -46,7 +49,10 @@ def materialise(case):
         ids = set()
         for s in [m["vector"]] + m["modules"]:
             while True:
-                new = "".join(rng.choice(IDCH) for _ in range(rng.randint(3, 16)))
+                if rng.random() < 0.4:
+                    new = "-".join(rng.sample(IDWORDS, 2))[:16]      # hyphenated lab names (legal in GenBank ids)
+                else:
+                    new = "".join(rng.choice(IDCH) for _ in range(rng.randint(3, 16)))
                 if new not in ids and not any(new in o or o in new for o in ids):
                     break
             ids.add(new)
